@@ -2078,12 +2078,6 @@ V('c04-uid-computed-outside-lock', 'C04', 'R4.1', DICTMBX,
         return dest_uid
 
     async def move''')
-V('c07-header-fields-upper', 'C07', 'R7.9',
-  'pymap/parsing/specials/fetchattr.py',
-  '''            header_list = frozenset([bytes(hdr)
-                                     for hdr in header_list_p.value])''',
-  '''            header_list = frozenset([bytes(hdr).upper()
-                                     for hdr in header_list_p.value])''')
 V('c08-split-strips', 'C08', 'R8.1', LAYOUT,
   '''        parts = name.split(delimiter)
         for part in parts:
@@ -2253,3 +2247,17 @@ V('c06-readline-twin-empty-test', 'C06', 'R6.10', SIEVE,
   '''            if not line.endswith(b'\\n'):
                 raise EOFError('connection closed')
             data.extend(line)''', expect='silent')
+FETCHATTR = 'pymap/parsing/specials/fetchattr.py'
+V('c18-header-names-wire-spelling', 'C18', 'R18.8', FETCHATTR,
+  '[hdr.value for hdr in header_list_p.get_as(AString)])',
+  '[bytes(hdr) for hdr in header_list_p.get_as(AString)])')
+ASTRING = 'pymap/parsing/specials/astring.py'
+V('c07-astring-fallback-quoted', 'C07', 'R7.3', ASTRING, '', '',
+  edits=[(ASTRING, 'self._raw = bytes(String.build(self.value))',
+          'self._raw = bytes(QuotedString(self.value))'),
+         (ASTRING, 'from ..primitives import String\n',
+          'from ..primitives import String, QuotedString\n')])
+V('c07-header-echo-verbatim', 'C07', 'R7.9', FETCHATTR,
+  '''                    parts.append(bytes(List(
+                        [AString(hdr) for hdr in sorted(headers)])))''',
+  '''                    parts.append(bytes(List(headers, sort=True)))''')
